@@ -58,12 +58,11 @@ def apply_one(frag, ref, p, c, errs, ctx):
     if c:
         occ = ref.occupied(p, len(c))
         if raised is not None and not occ:
-            errs.append(('spurious-collision' + ctx(p, c, ref), 'insert(%d,%r) raised %r although no byte of [%d,%d) is occupied'
+            errs.append(('spurious-collision', 'insert(%d,%r) raised %r although no byte of [%d,%d) is occupied'
                          % (p, c, str(raised)[:60], p, p + len(c))))
             return False
         if raised is None and occ:
             errs.append(('missed-collision', 'insert(%d,%r) returned although a byte of [%d,%d) is occupied' % (p, c, p, p + len(c))))
-            ref_over = True
             return True
         if raised is None:
             ref.store(p, c)
@@ -89,9 +88,7 @@ def run_history(hist, Fragments):
     errs = []
     trans = 0
 
-    def ctx(p, c, ref):
-        # narrow mechanism tag: is an EMPTY chunk stored inside/at the end of the new span?
-        return ''
+    ctx = None
 
     for op in hist:
         if op[0] == 'insert':
@@ -119,11 +116,6 @@ def run_history(hist, Fragments):
             errs.append(('tobytes-impure', 'second tobytes() differs'))
             break
     return errs, (ref.canon(), frag.current_offset), trans
-
-
-def classify_spurious(hist):
-    """Narrow signature for a spurious collision: were only EMPTY chunks in the way?"""
-    return 'spurious-collision'
 
 
 def snippet(hist):
